@@ -25,6 +25,7 @@ C10(r) == (r.dok /\ r.skip # <<>>) =>
                   /\ s.portable                                   \* integer values + transform description are exposed
                   /\ s.normal = s.rebuilt                          \* the described transform reproduces the normal decode bit for bit
             /\ r.skip_rest_same                                   \* other attributes and the connectivity are unaffected
+            /\ r.cleared_same                                     \* a skip flag that was set and cleared again (value false) skips nothing
             /\ r.skip_missing = 0                                 \* every attribute the encoder quantised, of a skipped type, comes back with its transform description
 Check(r) == IF r.e # "RT" THEN TRUE
             ELSE CASE Prop = "C01" -> C01(r) [] Prop = "C03" -> C03(r) [] Prop = "C06" -> C06(r)
